@@ -9,7 +9,6 @@ import (
 	"encoding/hex"
 	"fmt"
 	"os"
-	"os/exec"
 	"strings"
 
 	"github.com/rigochain/rigo-go/libs/verifhook"
@@ -27,12 +26,7 @@ type snap struct {
 }
 
 func cpDir(src, dst string) error {
-	_ = os.RemoveAll(dst)
-	out, err := exec.Command("cp", "-r", src, dst).CombinedOutput()
-	if err != nil {
-		return fmt.Errorf("cp: %v %s", err, out)
-	}
-	return nil
+	return common.CopyDirStable(src, dst)
 }
 
 // blockRecs returns the records of the block in execution (since the last commit).
@@ -55,12 +49,18 @@ func blockRecs(recs []*apphist.Rec) []*apphist.Rec {
 // recoverAndReplay opens the snapshot and plays the role of Tendermint's handshake.
 // prevH/prevHash: last fully committed block before the interrupted one; newHash: the hash the
 // uncrashed node computed for the interrupted block; blk: the interrupted block's records (with outputs).
-func recoverAndReplay(dir string, prevH int64, prevHash, newHash []byte, blk []*apphist.Rec, chainID string, gen *appdrv.Genesis) (outcome, detail string) {
+func recoverAndReplay(dir string, prevH int64, prevHash, newHash []byte, blk []*apphist.Rec, chainID string, gen *appdrv.Genesis, keep **appdrv.Node) (outcome, detail string) {
 	n, err := appdrv.OpenNode(dir)
 	if err != nil {
 		return "panic", "open: " + err.Error()
 	}
-	defer n.Close()
+	defer func() {
+		if keep != nil && (outcome == "ok-replay" || outcome == "ok-ahead") {
+			*keep = n // the caller keeps this recovered node alive as a follower
+			return
+		}
+		n.Close()
+	}()
 	n.ChainID = chainID
 	switch {
 	case n.Height == prevH+1:
@@ -82,6 +82,15 @@ func recoverAndReplay(dir string, prevH int64, prevHash, newHash []byte, blk []*
 		}
 	}
 	// replay the interrupted block
+	if oc, dt := replayBlock(n, prevH+1, newHash, blk, chainID); oc != "" {
+		return oc, dt
+	}
+	return "ok-replay", ""
+}
+
+// replayBlock feeds one recorded block to node n and compares every answer and the committed app hash with the
+// uncrashed node's; returns ("", "") when everything agrees.
+func replayBlock(n *appdrv.Node, h int64, newHash []byte, blk []*apphist.Rec, chainID string) (outcome, detail string) {
 	for _, r := range blk {
 		switch r.Kind {
 		case "begin":
@@ -102,7 +111,7 @@ func recoverAndReplay(dir string, prevH int64, prevHash, newHash []byte, blk []*
 				return "mismatch", "replayed DeliverTx answers " + got + ", originally " + r.Out
 			}
 		case "end":
-			ups, p := n.EndBlock(prevH + 1)
+			ups, p := n.EndBlock(h)
 			if p != "" {
 				return "panic", p
 			}
@@ -111,14 +120,22 @@ func recoverAndReplay(dir string, prevH int64, prevHash, newHash []byte, blk []*
 			}
 		}
 	}
-	h, p := n.Commit()
+	hh, p := n.Commit()
 	if p != "" {
 		return "panic", p
 	}
-	if hex.EncodeToString(h) != hex.EncodeToString(newHash) {
-		return "mismatch", fmt.Sprintf("replayed block commits app hash %x, the uncrashed node %x", h, newHash)
+	if hex.EncodeToString(hh) != hex.EncodeToString(newHash) {
+		return "mismatch", fmt.Sprintf("replayed block %d commits app hash %x, the uncrashed node %x", h, hh, newHash)
 	}
-	return "ok-replay", ""
+	return "", ""
+}
+
+// follower: a node recovered from a crash point that keeps following the rest of the history ("…and the node
+// continues with exactly the application hashes of a node that never crashed")
+type follower struct {
+	n     *appdrv.Node
+	dir   string
+	where string
 }
 
 // Prop selects which property's violations are reported: "C08" (default) every unrecoverable crash point;
@@ -157,6 +174,8 @@ func Run(seed uint64, tier, work, driver string, replay []string) *common.Result
 			nblocks = r.Range(12, 14)
 		}
 		var prevHash []byte
+		var followers []*follower
+		snapSeq := 0
 		for b := 0; b < nblocks && s.N.Dead == ""; b++ {
 			var snaps []snap
 			sparse := long && b < 9 // early blocks of the long history: only a few crash points
@@ -164,7 +183,8 @@ func Run(seed uint64, tier, work, driver string, replay []string) *common.Result
 				if sparse && k%5 != 1 {
 					return
 				}
-				d := fmt.Sprintf("%s/snap%d", hw, len(snaps))
+				snapSeq++
+				d := fmt.Sprintf("%s/snap%d", hw, snapSeq) // unique: recovered followers keep living in their snapshot directory
 				if err := cpDir(s.N.Root, d); err == nil {
 					snaps = append(snaps, snap{dir: d, k: k, where: where, labels: append([]string(nil), labels...)})
 				}
@@ -203,9 +223,45 @@ func Run(seed uint64, tier, work, driver string, replay []string) *common.Result
 				break
 			}
 			newHash := s.N.AppHash
+			// recovered nodes of earlier crash points follow the history
+			if Prop != "C10" {
+				alive := followers[:0]
+				for _, f := range followers {
+					oc, dt := replayBlock(f.n, prevH+1, newHash, blk, s.N.ChainID)
+					res.Evaluations++
+					res.Count("follower-block:" + map[bool]string{true: "ok", false: oc}[oc == ""])
+					if oc == "" {
+						alive = append(alive, f)
+						continue
+					}
+					dup := false
+					for _, v := range res.Violations {
+						if v.Kind == "crash-recovered-node-diverges" {
+							dup = true
+						}
+					}
+					if !dup {
+						res.Violations = append(res.Violations, common.Violation{Property: "C08", Kind: "crash-recovered-node-diverges",
+							Detail: fmt.Sprintf("history %d: the node recovered from a crash %s followed the chain and diverged at block %d: %s %s", hi, f.where, prevH+1, oc, dt),
+							Ops:    append(s.ReplayLines(), "# crash point: "+f.where+", then restart, replay and continued execution")})
+					}
+					f.n.Close()
+					_ = os.RemoveAll(f.dir)
+				}
+				followers = alive
+			}
 			for _, sn := range snaps {
-				outcome, detail := recoverAndReplay(sn.dir, prevH, prevHash, newHash, blk, s.N.ChainID, s.Gen)
-				_ = os.RemoveAll(sn.dir)
+				var keep **appdrv.Node
+				var kept *appdrv.Node
+				if Prop != "C10" && len(followers) < 2 && (sn.k == 0 || sn.k >= len(labels)) && r.Chance(35) {
+					keep = &kept
+				}
+				outcome, detail := recoverAndReplay(sn.dir, prevH, prevHash, newHash, blk, s.N.ChainID, s.Gen, keep)
+				if kept != nil {
+					followers = append(followers, &follower{n: kept, dir: sn.dir, where: fmt.Sprintf("%s of block %d", sn.where, prevH+1)})
+				} else {
+					_ = os.RemoveAll(sn.dir)
+				}
 				res.Evaluations++
 				lab := "outside-commit"
 				if sn.k > 0 {
@@ -256,6 +312,10 @@ func Run(seed uint64, tier, work, driver string, replay []string) *common.Result
 			if len(res.Samples) < 4 && len(meta) > 0 {
 				res.Samples = append(res.Samples, meta[len(meta)-1])
 			}
+		}
+		for _, f := range followers {
+			f.n.Close()
+			_ = os.RemoveAll(f.dir)
 		}
 		s.N.Close()
 		_ = os.RemoveAll(hw)
